@@ -1,6 +1,5 @@
 #!/usr/bin/env python3
-"""Type-level half of C15 (building block for checks/c15.py, which does not exist yet; NOT a check of
-its own): UnifyGenericType / GetInstantiatedType / the instantiation cache of generic Kombinationen
+"""Type-level leg of C15 (imported by checks/c15.py; NOT a check of its own): UnifyGenericType / GetInstantiatedType / the instantiation cache of generic Kombinationen
 (src/ddptypes/generic_types.go) against the extracted model coq/Types/Generic.v (theorems in
 coq/Types/GenericProofs.v), and against a small specification oracle:
 
